@@ -534,7 +534,10 @@ class Simulator:
         self.assigned_after_guard = []
         self.guarded_vars = set()
         facts = []
+        self.infeasible = False
         end = self._block([self.body], facts, False, [])
+        if self.infeasible:
+            return [], "infeasible"
         return self.sites, end
 
     def _block(self, stmts, facts, in_threads, path):
@@ -667,6 +670,12 @@ class Simulator:
                             except cx.ParseError:
                                 pz = None
                             if pz is not None and vd["n"] not in pz.symbols():
+                                # a local defined as a copy of a case variable has that variable's sign: the case
+                                # combinations that give it another one are infeasible
+                                r0 = cx.strip_casts(rhs)
+                                if r0[0] == "id" and r0[1] in self.case.signs and vd["n"] in self.case.signs \
+                                        and self.case.signs[vd["n"]] != self.case.signs[r0[1]]:
+                                    self.infeasible = True
                                 f = Fact("==", ("id", vd["n"]), rhs, "%s == %s" % (vd["n"], cx.unparse(rhs)))
                                 f.assign_var, f.assign_poly = vd["n"], pz
                                 facts.append(f)
